@@ -39,6 +39,19 @@ CLAIMED = {
             "inductive invariant (re-proved by every step); each step (DATA, acknowledge, DATA on "
             "closed/reset streams, settings ACK) is exhausted; 'U == 0 and max > 0 implies cur > "
             "0' replaces the unbounded-history liveness quantifier.", "7/C05"),
+    'C26': ("symbolic execution of ping() and _receive_ping_frame over 1-3 PING frames with "
+            "symbolic ACK flags and identity-tracked payloads (CrossHair/z3)",
+            "ACK flags, payload length and the mix with other frames are solver variables / "
+            "enumerated shards; the answer list is read from the output buffer in buffer order; "
+            "payload identity (the very object passed through) stands for 'identical 8 bytes'.",
+            "7/C26"),
+    'C23': ("symbolic execution of prioritize / send_headers(priority_*) / _receive_priority_frame "
+            "with weight, dependency, exclusive flag and target stream id as solver variables; "
+            "sender frame is handed to a real receiver; generic state snapshot compared "
+            "before/after",
+            "All weights (incl. out of range), dependency ids, flags and target ids 1..2^31-1; "
+            "round trip client -> frame -> server event; 'changes no state' is decided by a "
+            "generic object-graph snapshot equality.", "7/C23"),
 }
 
 NOT_YET = {}
